@@ -111,3 +111,12 @@ Theorem C06_refuted_logfmt_equals_in_value :
   logfmt_parse (lit "tok=YWJj== n=1") = [(lit "n", Some (lit "1"))].
 Proof. vm_compute. split; reflexivity. Qed.
 Print Assumptions C06_refuted_logfmt_equals_in_value.
+
+(** KF-51 - "numeric text converted" goes further than numbers: the WORDS nan, inf and infinity, in any case and with a
+    sign, auto-convert to non-finite numbers (Rust's float grammar), so a user called Nan prints as null under -o json *)
+Theorem C06_refuted_nonfinite_words :
+  from_string (lit "Nan") = VFloat SpecFloat.S754_nan /\
+  from_string (lit "Infinity") = VFloat (SpecFloat.S754_infinity false) /\
+  from_string (lit "-inf") = VFloat (SpecFloat.S754_infinity true).
+Proof. vm_compute. repeat split. Qed.
+Print Assumptions C06_refuted_nonfinite_words.
